@@ -66,8 +66,8 @@ PROPS["C15"] = {
     "level_text": "Generated node populations (selector label, one or two anti-affinity labels, taints, restart history of the active pods), replicas as number or percent, canary nodeSelector, anti-affinity keys, eligibility-changing new templates and previously selected lists (valid, stale, nonexistent) are fed to one real ExtendedDaemonSet Reconcile; the resulting status.canary.nodes is judged by an independent oracle: distinct, valid, previous valid entries kept, count = replicas resolved against the targeted nodes (rounded up) or an error, error only when no selection exists within the per-value quota, spread over anti-affinity values, least-restarts preference. The validity monitor also runs in generated histories with node deletion/relabel/taint during a canary.",
     "level_note": "The per-value quota ceil(replicas/#values) is taken from the code's own documentation of the spreading rule; the statement only says 'spreading'.",
     "technique": "property-based testing (rapid) of the selection against a validity/preference oracle; stateful histories with a per-reconcile invariant",
-    "quick": {"jobs": [rapid_job("selection", "^TestC15Selection$", 4000, shards=2), rapid_job("known", "^TestC15KnownStale$", 1)]},
-    "thorough": {"jobs": [rapid_job("selection", "^TestC15Selection$", 20000, shards=16), rapid_job("known", "^TestC15KnownStale$", 1)]},
+    "quick": {"jobs": [rapid_job("selection", "^TestC15Selection$", 4000, shards=2), rapid_job("known", "^TestC15Known", 1)]},
+    "thorough": {"jobs": [rapid_job("selection", "^TestC15Selection$", 20000, shards=16), rapid_job("known", "^TestC15Known", 1)]},
 }
 
 SM_NOTE = "Histories are sampled, not enumerated: 1-8 nodes, up to 3-4 replica sets, up to ~45 (quick) / ~90 (thorough) generated actions; reconciles run one at a time against a linearizable in-memory store (any reconcile may run at any time, requeue hints are ignored)."
@@ -195,6 +195,48 @@ PROPS["C18"] = {
     "technique": "property-based testing (rapid) against a reference verdict; exhaustive enumeration of reconcile orders per generated population",
     "quick": {"jobs": [rapid_job("settings", "^TestC18Settings$", 2000, shards=2), rapid_job("all-orders", "^TestC18AllOrders$", 250, shards=2)]},
     "thorough": {"jobs": [rapid_job("settings", "^TestC18Settings$", 15000, shards=8, timeout="50m"), rapid_job("all-orders", "^TestC18AllOrders$", 1500, shards=8, timeout="50m")]},
+}
+
+PROPS["C07"] = {
+    "title": "A failed canary is rolled back to the active version",
+    "level": "fault_enumeration",
+    "level_text": "Generated histories end in a failed canary by each route (canary fail, restart storm -> auto-fail, canaryTimeout; paused or not; before or after the canary duration elapsed; replica sets or EDS reconciled first) and the rollback reconcile meets each fault position of its two-write window (status write rejected, status applied but answer lost, process stop between the writes, spec write rejected, spec applied but answer lost, stop before the status write; controllers rebuilt after a stop). Within 25 fair rounds spec.template must equal the active set's template, status.canary be nil, status.activeReplicaSet be unchanged and every former canary node run one Ready pod of the active template; the failed set must exist for at least two minutes and is only deleted with an all-zero status (rs-gc monitor); the promotion-rule and status monitors run throughout. TestC07Window enumerates routes x fault positions x paused x after-duration x reconcile order completely for a 3-node cluster.",
+    "level_note": "Exhaustive only for the finite product named (168 combinations, exhaustive_subspaces in the evidence); cluster sizes and replicas are sampled in TestC07Rollback.",
+    "technique": "fault injection at every position of the two-write window (enumerated) + property-based sampling (rapid) of failure routes, with a bounded-rounds recovery oracle",
+    "quick": {"jobs": [rapid_job("window", "^TestC07Window$", 1), rapid_job("rollback", "^TestC07Rollback$", 250, shards=4)]},
+    "thorough": {"jobs": [rapid_job("window", "^TestC07Window$", 1), rapid_job("rollback", "^TestC07Rollback$", 1500, shards=15, timeout="50m")]},
+}
+
+PROPS["C11"] = {
+    "title": "Any failed API call or controller crash is recovered without breaking safety",
+    "level": "fault_enumeration",
+    "level_text": "Corpus of nine scenarios (first deployment, rolling update, canary start, promotion by validation and by time, failure and rollback by command / restart storm / timeout, node removal and taint, settings change, migration from a DaemonSet) played by milestone-driven scripts. The failure-free run records the K API calls of the controllers (reads included); a faulted re-run injects, at call k, one of {call rejected, call applied but answer lost, process stop before the call, process stop after the call} (fresh controller instances after a stop), then failure-free fair rounds until quiet. Oracle: the safety monitors (eligible/once-per-node creation, availability budget, canary confinement and list growth, promotion rule, ownership, no panic - the five safety properties the statement lists) after every step, and the final canonical state (pods per node with template hash / readiness / labels / resources, EDS status, replica sets) equal to the failure-free run's modulo names and timestamps. Quick: sampled positions, kinds and pairs over generated configurations plus the exhaustive single-fault sweep of three scenarios; thorough: every single position x kind for all nine scenarios (exhaustive for singles of the fixed configuration) and more sampled pairs.",
+    "level_note": "Exhaustive for single faults of one fixed configuration per scenario; other configurations and pairs are sampled. A stopped process is modelled as every later call of that reconcile failing, then fresh reconciler instances.",
+    "technique": "fault enumeration over the recorded API-call sequence (every index x fault kind) + property-based sampling (rapid) of configurations and fault pairs; differential oracle against the failure-free run",
+    "quick": {"jobs": [rapid_job("sampled", "^TestC11Sampled$", 40, shards=4), rapid_job("singles", "^TestC11Exhaustive$", 1, shards=6, env={"VERIF_SCENARIOS": "rolling-update,failure-rollback,canary-start"})]},
+    "thorough": {"jobs": [rapid_job("sampled", "^TestC11Sampled$", 150, shards=6, timeout="50m"), rapid_job("singles", "^TestC11Exhaustive$", 1, shards=10, timeout="50m")]},
+}
+
+PROPS["C17"] = {
+    "title": "Concurrent reconciles and parallel pod operations are race free, lose no error",
+    "level": "exploration",
+    "race": True,
+    "log_violations": True,
+    "level_text": "Built with the Go race detector. (a) Batches of 2-64 simultaneous pod creations, update-deletions and clean-up deletions through the controller's parallel helpers and through whole replica-set Reconciles, with a generated subset (none/some/all) of the API calls failing: the number of errors returned must equal the number of injected failures, ReconcileError must be True iff a pod operation failed and a failed clean-up must show in ReconcileError or PodsCleanupDone. (b) The ExtendedDaemonSet, replica-set (two workers), setting and PodTemplate reconcilers, a kubelet model and a user run as goroutines against one store for a bounded number of iterations with a generated fraction of writes failing; any race report or panic is a violation.",
+    "level_note": "Interleavings are those the Go scheduler produces under -race with GOMAXPROCS=16; the harness does not own the schedule. The race detector's happens-before analysis flags an unsynchronised access even when no update is actually lost.",
+    "technique": "property-based testing (rapid) of generated concurrent workloads under the Go race detector, with an error-count oracle under injected faults",
+    "quick": {"jobs": [rapid_job("batches", "^TestC17Batches$", 120, shards=2), rapid_job("concurrent", "^TestC17Concurrent$", 40, shards=2)]},
+    "thorough": {"jobs": [rapid_job("batches", "^TestC17Batches$", 800, shards=8, timeout="50m"), rapid_job("concurrent", "^TestC17Concurrent$", 300, shards=8, timeout="50m")]},
+}
+
+PROPS["C19"] = {
+    "title": "kubectl-eds commands change only what they document; the controller obeys them",
+    "level": "exploration",
+    "level_text": "Stateful property test whose user actions are the real command bodies (run through build-tagged shims with an injected client): a generated prefix history reaches no canary / canary running / auto-paused / user-paused / failed / mid rolling update, then up to three commands, each followed by fair rounds. Oracle: the store diff before/after a command touches only the documented annotation keys (for `fail`: only the canary replica set's Canary-Failed condition); a command whose precondition is false, or that returns an error, writes nothing; annotation values are the documented ones; within six rounds pause => Canary Paused, unpause => Canary, validate => exactly the replica set that was status.canary.replicaSet when the command ran is active (a later template is not promoted by the old annotation: promotion-rule monitor), fail => rollback. A scenario family covers `canary fail` on a re-used replica set.",
+    "level_note": "Expectations about the controller's interpretation are only demanded when the command acted on the current canary (status.canary matching spec.template) and, for fail, when the canary is not explicitly validated.",
+    "technique": "stateful property-based testing (rapid) with real command bodies as actions, store-diff oracle and bounded-rounds interpretation oracle",
+    "quick": {"jobs": [rapid_job("commands", "^TestC19Commands$", 300, shards=4), rapid_job("reused-set", "^TestC19FailReusedSet$", 60)]},
+    "thorough": {"jobs": [rapid_job("commands", "^TestC19Commands$", 2500, shards=15, timeout="50m"), rapid_job("reused-set", "^TestC19FailReusedSet$", 400)]},
 }
 
 NOT_APPLICABLE = {}
